@@ -313,7 +313,16 @@ pub fn run(ctx: &Ctx) -> Report {
     });
     rep.merge(b);
     // (c) semantic SDD builder histories
-    let mut c = crate::props::sddsweep::run_all(ctx, true);
+    // (the two sweeps run side by side in the quick tier, one after the other in thorough)
+    let (mut c, mut h) = if ctx.tier == Tier::Quick {
+        std::thread::scope(|s| {
+            let hc = s.spawn(|| crate::props::sddsweep::run_all(ctx, true));
+            let hh = s.spawn(|| crate::props::sddsweep::run_all_h(ctx, false, true));
+            (hc.join().expect("semantic sweep"), hh.join().expect("hash sweep"))
+        })
+    } else {
+        (crate::props::sddsweep::run_all(ctx, true), crate::props::sddsweep::run_all_h(ctx, false, true))
+    };
     crate::props::sddsweep::filter_for(&mut c, "C11");
     rep.add_extra("part_c_semantic_sdd_operations", c.transitions);
     c.rule = String::new();
@@ -321,7 +330,6 @@ pub fn run(ctx: &Ctx) -> Report {
     rep.merge(c);
     // (a') every result of the SDD operation histories (compression on and off, so also
     // untrimmed / uncompressed diagrams of a function): hash of the result and of its negation
-    let mut h = crate::props::sddsweep::run_all_h(ctx, false, true);
     crate::props::sddsweep::filter_for(&mut h, "C11");
     let hc = h.extra.get("semantic_hash_checks").and_then(|v| v.as_u64()).unwrap_or(0);
     rep.add_extra("part_a_hash_checks_on_sdd_operation_results", hc);
